@@ -770,6 +770,57 @@ def cmd_rerun(path):
         print('RESULT raised ' + type(e).__name__)
 
 
+def correlate_step(inputs, spec, r):
+    """(state, action, next_state) triples: most of the time next_state is a small edit of state (the agent moved,
+    a door changed, one cell replaced), and a `unique object` parameter really is unique, with ghost positions set"""
+    import copy as _c
+    if not ('state' in inputs and 'next_state' in inputs and r.random() < 0.75):
+        return
+    st = inputs['state']['State']
+    grid = st['grid']['Grid']
+    h, w = len(grid), len(grid[0])
+    if 'object_type' in spec.args and ('c1' in spec.args or 'c2' in spec.args):
+        for row in grid:
+            for x in range(w):
+                if row[x]['cls'] == 'Exit':
+                    row[x] = {'cls': 'Floor'}
+        y1, x1 = r.randrange(h), r.randrange(w)
+        grid[y1][x1] = {'cls': 'Exit', 'color': 'NONE'}
+        inputs['object_type'] = {'class': 'Exit'}
+        if 'c1' in spec.args:
+            inputs['c1'] = {'Position': [y1, x1]}
+    nxt = _c.deepcopy(inputs['state'])
+    ns = nxt['State']
+    ng = ns['grid']['Grid']
+    for _ in range(r.randint(0, 2)):
+        k = r.random()
+        if k < 0.4:
+            p = ns['agent']['Agent']['position']['Position']
+            d = r.choice([(-1, 0), (1, 0), (0, -1), (0, 1)])
+            q = [p[0] + d[0], p[1] + d[1]]
+            if 0 <= q[0] < h and 0 <= q[1] < w:
+                ns['agent']['Agent']['position'] = {'Position': q}
+        elif k < 0.7:
+            doors = [(y, x) for y in range(h) for x in range(w) if ng[y][x]['cls'] == 'Door']
+            if doors:
+                y, x = r.choice(doors)
+                ng[y][x] = dict(ng[y][x], state=r.choice(['OPEN', 'CLOSED', 'LOCKED']))
+            else:
+                y, x = r.randrange(h), r.randrange(w)
+                if ng[y][x]['cls'] != 'Exit':
+                    ng[y][x] = r.choice([{'cls': 'Wall'}, {'cls': 'Floor'}, {'cls': 'Door', 'state': 'OPEN', 'color': 'RED'}])
+        else:
+            y, x = r.randrange(h), r.randrange(w)
+            if ng[y][x]['cls'] != 'Exit':
+                ng[y][x] = r.choice([{'cls': 'Wall'}, {'cls': 'Floor'}, {'cls': 'Key', 'color': 'BLUE'}])
+    inputs['next_state'] = nxt
+    if 'c2' in spec.args:
+        for y in range(h):
+            for x in range(w):
+                if ng[y][x]['cls'] == 'Exit':
+                    inputs['c2'] = {'Position': [y, x]}
+
+
 def cmd_crosscheck(module, n, seed, names):
     import pyvc_rt
     importlib.import_module(module)
@@ -786,6 +837,7 @@ def cmd_crosscheck(module, n, seed, names):
             tries += 1
             inputs = {p: rand_input(s, r) for p, s in spec.args.items()}
             correlate(inputs, spec, r)
+            correlate_step(inputs, spec, r)
             res = run_contract(spec, inputs)
             stats['runs'] += 1
             if res.get('contract_error'):
